@@ -29,7 +29,11 @@ IsEvent(e) == l <= Len(Rec) /\ Rec[l].ev = e /\ l' = l + 1
 \* TLC integers are 32-bit: for huge intervals the window depth is reduced so that offsets fit
 Kd(dd) == IF 500000000 \div dd < K THEN 500000000 \div dd ELSE K
 Trunc(s) == IF Len(s) > Kd(d) + 1 THEN SubSeq(s, 1, Kd(d) + 1) ELSE s
-Shift(s, x) == [i \in 1..Len(s) |-> s[i] - x]
+\* offsets saturate at -Cap: (K+1)-windows only look Kd(d)*d <= 5*10^8 back, so anything further away than 10^9 is "far" whatever its exact value
+Cap == 1000000000
+Sub(a, x) == IF x >= Cap \/ a <= x - Cap THEN 0 - Cap ELSE a - x          \* a <= 0 <= x; never leaves the 32-bit range
+Shift(s, x) == [i \in 1..Len(s) |-> Sub(s[i], x)]
+SafeSum(g, t) == IF g >= Cap THEN Cap ELSE g + t                            \* t <= d <= 10^9
 
 TNew == /\ IsEvent("New") /\ Rec[l].D >= 1
         /\ d' = Rec[l].D /\ hist' = <<>>
@@ -38,7 +42,7 @@ TCall ==
   /\ IsEvent("Call")
   /\ Rec[l].gap >= 0                            \* hypothesis of C19: asked for after the previous release
   /\ LET t == Rec[l].delay
-         h == Trunc(<<0>> \o Shift(hist, Rec[l].gap + t)) IN
+         h == Trunc(<<0>> \o Shift(hist, SafeSum(Rec[l].gap, IF t >= 0 /\ t <= d THEN t ELSE 0))) IN
        /\ t >= 0 /\ t <= d                       \* C19: delayed by at most one interval
        /\ P!WindowOn(d, h, Kd(d))                \* C19: k+1 releases span more than (k-1)*D
        /\ hist' = h
